@@ -24,8 +24,8 @@ import (
 )
 
 const (
-	tdShort  = 60 * time.Millisecond   // timeout of a "short" write: fires at the next `fire`
-	tdMargin = 90 * time.Millisecond   // slack `fire` waits beyond the timeout
+	tdShort  = 100 * time.Millisecond  // timeout of a "short" write: fires at the next `fire`
+	tdMargin = 100 * time.Millisecond  // slack `fire` waits beyond the timeout
 	tdLong   = 2500 * time.Millisecond // timeout of a "long" write: never fires within a history
 )
 
@@ -44,6 +44,7 @@ type tdExt struct {
 	pend      map[uint64]*tdPend        // SPEC: writes accepted for approval and neither decided, timed out nor torn down
 	why       map[uint64]string         // SPEC: why a write left `pend`: decided | timeout | drop | entity
 	lastShort time.Time                 // when the last short timer was armed
+	gen       *regStats // generator quality by SPEC expectation
 	preBits   map[int]string
 	early     bool // a short timer fired before its `fire` step (timing flake, history abandoned)
 }
@@ -137,7 +138,7 @@ func (t *tdExt) specFanout(r *h.Report, done []string, op string, preS []regEntr
 }
 
 // step executes the ops that only the composed world has.
-func (t *tdExt) step(r *h.Report, done []string, f []string, preS []regEntry) (impl, kind string) {
+func (t *tdExt) step(r *h.Report, done []string, f []string, preS, preB []regEntry) (impl, kind string) {
 	w := t.w
 	op := strings.Join(f, " ")
 	atoi := func(i int) int { n, _ := strconv.Atoi(f[i]); return n }
@@ -158,6 +159,8 @@ func (t *tdExt) step(r *h.Report, done []string, f []string, preS []regEntry) (i
 				lf.SetWriteApprovalTimeout(tdLong)
 			}
 		}
+		t.gen.wrAll++
+		t.gen.wrOk += h.B2i(regHas(preB, regPair(p, ce, cf, se, sf)) && w.alive[p] && (se == "1" && sf <= 2 || se == "2" && sf == 1))
 		wc := model.CmdClassifierTypeWrite
 		ack := true
 		t0 := time.Now()
@@ -185,6 +188,8 @@ func (t *tdExt) step(r *h.Report, done []string, f []string, preS []regEntry) (i
 	case "approve", "deny": // approve p w
 		p, ctr := atoi(1), uint64(atoi(2))
 		impl = "-"
+		t.gen.vAll++
+		t.gen.vOk += h.B2i(t.pend[ctr] != nil)
 		if m := t.msg(ctr); m != nil {
 			e := model.ErrorType{}
 			if f[0] == "deny" {
@@ -222,6 +227,13 @@ func (t *tdExt) step(r *h.Report, done []string, f []string, preS []regEntry) (i
 		}
 		kind = f[0] + ":" + strings.Fields(impl)[0]
 	case "fire":
+		t.gen.fireAll++
+		for _, sp := range t.pend {
+			if sp.short {
+				t.gen.fireOk++
+				break
+			}
+		}
 		if !t.lastShort.IsZero() {
 			if d := time.Until(t.lastShort.Add(tdShort + tdMargin)); d > 0 {
 				time.Sleep(d)
@@ -359,16 +371,25 @@ func genTdHistory(rng regRng, n, np int, withShort bool) (ops []string, firstSho
 	ops = []string{fmt.Sprintf("peers %d", np)}
 	firstShort = -1
 	type bound struct{ p, ce, cf, se, sf int }
-	var binds []bound
+	var binds, prefix []bound
 	var pend []string // "p w"
 	ctr := 100000
 	valid := [][5]int{{1, 1, 1, 1, 1}, {1, 2, 1, 2, 2}, {2, 1, 1, 1, 1}, {1, 3, 1, 1, 1}, {1, 3, 1, 2, 2}, {1, 1, 2, 1, 1}, {2, 1, 2, 1, 1}, {1, 3, 2, 1, 1}}
-	if rng.Intn(10) < 6 {
+	if withShort || rng.Intn(10) < 6 {
 		// a prefix that binds one client of each peer to a server of its own, so that writes are accepted
 		for p, v := range [][5]int{{1, 1, 1, 1, 1}, {1, 2, 1, 2, 2}, {1, 1, 2, 1, 1}}[:np] {
 			ops = append(ops, fmt.Sprintf("bind %d %d %d %d %d %d", p+1, v[0], v[1], v[2], v[3], v[4]))
 			binds = append(binds, bound{p + 1, v[0], v[1], v[2], v[3]})
 		}
+		prefix = append(prefix, binds...)
+	}
+	inPrefix := func(b bound) bool {
+		for _, x := range prefix {
+			if x == b {
+				return true
+			}
+		}
+		return false
 	}
 	for i := 0; i < n; i++ {
 		p := 1 + rng.Intn(np)
@@ -385,17 +406,8 @@ func genTdHistory(rng regRng, n, np int, withShort bool) (ops []string, firstSho
 				b = binds[rng.Intn(len(binds))]
 			}
 			ctr++
-			kind := "L"
-			if withShort && i >= 2*n/3 && rng.Intn(2) == 0 {
-				kind = "S"
-				if firstShort < 0 {
-					firstShort = len(ops)
-				}
-			}
-			ops = append(ops, fmt.Sprintf("wr %d %d %d %d %d %d %s", b.p, b.ce, b.cf, b.se, b.sf, ctr, kind))
-			if kind == "L" {
-				pend = append(pend, fmt.Sprintf("%d %d", b.p, ctr))
-			}
+			ops = append(ops, fmt.Sprintf("wr %d %d %d %d %d %d L", b.p, b.ce, b.cf, b.se, b.sf, ctr))
+			pend = append(pend, fmt.Sprintf("%d %d", b.p, ctr))
 		case k < 19 && len(pend) > 0:
 			j := rng.Intn(len(pend))
 			ops = append(ops, []string{"approve ", "approve ", "deny "}[rng.Intn(3)]+pend[j])
@@ -414,12 +426,32 @@ func genTdHistory(rng regRng, n, np int, withShort bool) (ops []string, firstSho
 			s := [][2]int{{1, 1}, {1, 2}, {2, 1}}[rng.Intn(3)]
 			ops = append(ops, fmt.Sprintf("notify %d %d", s[0], s[1]))
 		case k < 27 && len(binds) > 0:
-			b := binds[rng.Intn(len(binds))]
-			ops = append(ops, fmt.Sprintf("unbind %d 0 %d %d %d %d", b.p, b.ce, b.cf, b.se, b.sf))
+			if b := binds[rng.Intn(len(binds))]; !(withShort && inPrefix(b)) {
+				ops = append(ops, fmt.Sprintf("unbind %d 0 %d %d %d %d", b.p, b.ce, b.cf, b.se, b.sf))
+			}
 		case k < 28:
 			ops = append(ops, fmt.Sprintf("unsub %d 0 %d %d %d %d", p, v[0], v[1], v[2], v[3]))
 		default:
 			ops = append(ops, fmt.Sprintf("%s %d", []string{"subs", "binds"}[rng.Intn(2)], p))
+		}
+	}
+	if withShort {
+		// the short block: the prefix-bound clients of peers 1 and 2 write to their approval-guarded servers with
+		// short timeouts, a few harmless ops in between; the faults go in here
+		firstShort = len(ops)
+		for _, b := range prefix[:2] {
+			for j := 0; j < 1+rng.Intn(2); j++ {
+				ctr++
+				ops = append(ops, fmt.Sprintf("wr %d %d %d %d %d %d S", b.p, b.ce, b.cf, b.se, b.sf, ctr))
+			}
+			switch rng.Intn(4) {
+			case 0:
+				ops = append(ops, fmt.Sprintf("read %d", 1+rng.Intn(np)))
+			case 1:
+				ops = append(ops, fmt.Sprintf("chas %d", 1+rng.Intn(np)))
+			case 2:
+				ops = append(ops, "notify 1 1")
+			}
 		}
 	}
 	return
@@ -461,7 +493,7 @@ func TestTeardown(t *testing.T) {
 	d := h.StartDriver("drv_td")
 	defer d.Close()
 	base := h.Baseline()
-	flakes, runs := 0, 0
+	flakes, runs := 0, 0 // histories with a `fire` step: abandoned for timing / all
 	st := &regStats{}
 	exec := func(q *h.Report, dd *h.Driver, ops []string) bool {
 		early := runTdHistory(q, dd, ev, base, ops, st)
@@ -483,7 +515,12 @@ func TestTeardown(t *testing.T) {
 	}
 	run := func(ops []string) {
 		before := r.Traces
-		runs++
+		for _, op := range ops {
+			if op == "fire" {
+				runs++
+				break
+			}
+		}
 		if exec(r, d, ops) {
 			flakes++
 		}
@@ -519,24 +556,20 @@ func TestTeardown(t *testing.T) {
 	// short timers: a fault at every position from just before the first short write on; the timers fire afterwards
 	for i := 0; i < h.Scale(7, 60); i++ {
 		np := 2 + rng.Intn(2)
-		b, first := genTdHistory(rng, 15+rng.Intn(15), np, true)
-		if first < 0 {
-			continue
-		}
-		lo := first - 2
-		if lo < 1 {
-			lo = 1
-		}
+		b, first := genTdHistory(rng, 10+rng.Intn(15), np, true)
+		lo := first - 1
 		for pos := lo; pos <= len(b); pos++ {
 			run(insert(b, pos, np, true))
 		}
 	}
 	r.Info["timing_flakes_abandoned"] = flakes
 	r.Info["faults_executed"] = st.faults
-	r.Floor("histories not abandoned for timing", runs-flakes, runs, 0.9)
-	r.Floor("writes accepted (pending or applied)", r.Dist["wr:pending"]+r.Dist["wr:applied"], r.Dist["wr:pending"]+r.Dist["wr:applied"]+r.Dist["wr:denied"]+r.Dist["wr:none"], 0.25)
-	r.Floor("verdicts that took effect", r.Dist["approve:applied"]+r.Dist["deny:refused"], r.Dist["approve:applied"]+r.Dist["deny:refused"]+r.Dist["approve:-"]+r.Dist["deny:-"], 0.15)
-	r.Floor("fire steps with results", r.Dist["fire:results"], r.Dist["fire:results"]+r.Dist["fire"], 0.3)
+	if regClean(r, tdKnownKeys) {
+		r.Floor("histories with timers not abandoned for timing", runs-flakes, runs, 0.7)
+		r.Floor("writes of a bound client to a writable feature", st.wrOk, st.wrAll, 0.25)
+		r.Floor("verdicts on a pending write", st.vOk, st.vAll, 0.08)
+		r.Floor("fire steps with a short timer pending", st.fireOk, st.fireAll, 0.2)
+	}
 	regShrinkReport(r, func(q *h.Report, ops []string) { exec(q, d, ops) }, tdKnownKeys, true)
 }
 
